@@ -619,3 +619,13 @@ M("C20", "M20-2-index-validate", dict(
             ("precedes_ok", "validate", "report"), ("err_propagates", "metas"), ("err_propagates", "validate")]),
   title="Index::validate_checksum checks the managed files of the committed segments and collects failing files only after a validation call; open / read errors are returned",
   functions=["Index::validate_checksum"], bounds="unroll 2")
+
+M("C06", "M06-3-merge-pushes-in-address-order", dict(
+    root=r"^collector::sort_key_top_collector::merge_top_k$", depth=1, unroll=2, inline=[], auto_inline=False,
+    native=[("api_ok", "topk_tie_break_multi_segment")], absent_ok_events=["order"],
+    events={"order": {"call": r"(slice::<impl \[.*\]>|std::vec::Vec<.*>)::sort(_unstable)?(_by|_by_key)?"},
+            "push": {"call": r"TopNComputer::<.*>::push$"},
+            "ret": {"ret": True}},
+    checks=[("precedes", "order", "push"), ("reach", "push")]),
+  title="merge_top_k establishes TopNComputer's documented precondition (items pushed in ascending address order; the per-segment fruits come from into_vec(), which promises no order) by ordering the items before the push loop; TopNComputer itself is decided under that precondition by the K06-topn harnesses",
+  functions=["collector::sort_key_top_collector::merge_top_k"], bounds="")
